@@ -210,7 +210,7 @@ func strGsub(L *LState) int {
 		L.RaiseError(err.Error())
 	}
 	if len(mds) == 0 {
-		L.SetTop(1)
+		L.Push(LString(str)) // not the argument itself: a number was converted (luaL_checklstring)
 		L.Push(LNumber(0))
 		return 2
 	}
